@@ -168,6 +168,45 @@ Theorem C13_model_paths :
 Proof. split; [exact exec_reader_paths_disciplined|]. intros. now apply solo_emits_model_path. Qed.
 Print Assumptions C13_model_paths.
 
+(* ---- the claim as far as it is proved --------------------------------------------------------- *)
+
+(* FULL STATEMENT: "any number of queries constructed and executed concurrently from different
+   goroutines each return what they return alone, and no data race, `concurrent map` fatal error
+   or deadlock occurs".
+   PROVED (this theorem): for every table of event paths that passes the regenerated criterion,
+   all threads executing any sequences of calls of the listed functions are race free on the cache,
+   the variables and the registries in EVERY interleaving; and in every interleaving of any number
+   of ExecReader calls (the only code that takes a process-wide lock) every call can be completed
+   and returns exactly what the sequential C09 model returns.
+   MISSING (observed by the -race stage instead): that /repo's Go code performs only the events the
+   translator lists (no type checker, by-name call graph), that the Go runtime implements the
+   interleaving semantics for race-free programs, the per-query state of the engine above the
+   cache (thread-local by construction: one *Query per goroutine), and the goroutines the engine
+   itself starts (PARALLEL joins: C04; ASYNC/SPINASYNC: C14). *)
+Theorem C13_concurrent_queries_partial :
+  (forall t : site_table, c13_sites_ok t = true ->
+   forall calls : tid -> list (list ev),
+     (forall i, Forall (runtime_path t) (calls i)) ->
+     forall sched, let s := run (fun i => List.concat (calls i)) sched in
+       ~ race "cache" s /\ ~ race "vars" s /\
+       ~ race "functions" s /\ ~ race "immediateFunctions" s /\ ~ race "topLevelFunctions" s) /\
+  (forall (calls : tid -> call (D := value)) sched i,
+     (forall r, pcs (crun sel_parse sel_eval [] true calls sched) i = PDone r ->
+                r = exec_reader (c_doc (calls i)) (c_sel (calls i))) /\
+     (exists sched', List.length sched' <= 12 /\
+                     is_done (pcs (crun sel_parse sel_eval [] true calls (sched ++ sched')) i) = true) /\
+     ~ cache_race (crun sel_parse sel_eval [] true calls sched)).
+Proof.
+  split.
+  - intros t Ht. apply andb_prop in Ht as [Ht _]. exact (sites_sound t Ht).
+  - intros calls sched i. split; [|split].
+    + intros r H. rewrite <- sel_solo_is_exec_reader.
+      exact (no_crosstalk sel_parse sel_eval [] true calls sched i r H).
+    + exact (no_deadlock sel_parse sel_eval [] true calls sel_parse_nopanic sched i).
+    + exact (cache_race_free sel_parse sel_eval [] true calls sel_parse_nopanic sched eq_refl).
+Qed.
+Print Assumptions C13_concurrent_queries_partial.
+
 (* ---- the pinned tree (D32) ------------------------------------------------------------------- *)
 
 (* ExecReader of the pinned tree reads the entry after the Unlock.  Two threads with fresh
@@ -196,7 +235,7 @@ Print Assumptions C13_pinned_refuted.
 
 (* three threads (two of them with the same fresh text) under an interleaved schedule: all finish,
    each with the value it returns alone, and the map holds both texts *)
-Definition ex_doc : value := VObj [("a", VObj [("b", VNum 1%float)]); ("c", VArr [VNum 2%float; VNum 3%float])].
+Definition ex_doc : value := VObj [("a", VObj [("b", VStr "x")]); ("c", VArr [VStr "y"; VStr "z"])].
 Definition ex_calls (i : tid) : call (D := value) :=
   match i with 0 => mkCall "a.b" ex_doc | 1 => mkCall "c[1]" ex_doc | _ => mkCall "a.b" ex_doc end.
 Definition ex_sched : list tid :=
@@ -204,8 +243,8 @@ Definition ex_sched : list tid :=
 
 Example C13_example_run :
   let s := crun sel_parse sel_eval [] true ex_calls ex_sched in
-  pcs s 0 = PDone (Ok (VNum 1%float)) /\ pcs s 1 = PDone (Ok (VNum 3%float)) /\
-  pcs s 2 = PDone (Ok (VNum 1%float)) /\ lock s = None /\
+  pcs s 0 = PDone (Ok (VStr "x")) /\ pcs s 1 = PDone (Ok (VStr "z")) /\
+  pcs s 2 = PDone (Ok (VStr "x")) /\ lock s = None /\
   is_ok (match cache s "a.b" with Some _ => Ok tt | None => Err end) = true.
 Proof. vm_compute. repeat split. Qed.
 
